@@ -807,6 +807,13 @@ class Interp:
             if isinstance(static, (list, dict, set, bytearray)):
                 return static  # shared class-level mutable (aliasing with the class is real Python semantics)
             return static
+        from .extmodels import ExtObject
+
+        if isinstance(obj, ExtObject):
+            try:
+                return obj.vf_attr(self, name)
+            except Unsupported:
+                return ExtMethod(obj, name)
         if isinstance(obj, SExc):
             if name == "args":
                 return obj.args
@@ -1080,8 +1087,18 @@ class Interp:
         if self.call_depth > 60:
             raise Unsupported("call depth exceeded")
         try:
+            from .extmodels import ExtObject, call_ext_object
+
             if isinstance(fn, Closure):
                 return self._call_closure(fn, args, kwargs)
+            if isinstance(fn, ExtMethod):
+                return fn.obj.vf_call(self, fn.name, args, kwargs, f)
+            if isinstance(fn, models.Partial):
+                kw = dict(fn.kwargs)
+                kw.update(kwargs)
+                return self.call_value(fn.fn, list(fn.args) + list(args), kw, n, f)
+            if isinstance(fn, ExtObject):
+                return call_ext_object(self, fn, args, kwargs, f)
             if isinstance(fn, SymMethod):
                 return models.sym_method(self, fn.recv, fn.name, args, kwargs, f)
             if isinstance(fn, ConcMethod):
@@ -1278,6 +1295,11 @@ class OpaqueStr:
 class SymMethod:
     def __init__(self, recv: Any, name: str):
         self.recv, self.name = recv, name
+
+
+class ExtMethod:
+    def __init__(self, obj: Any, name: str):
+        self.obj, self.name = obj, name
 
 
 class ConcMethod:
